@@ -286,7 +286,7 @@ Termination == <>(\A self \in ProcSet: pc[self] = "Done")
 (***************************************************************************)
 Cfg == [scripts |-> Scripts, gc0 |-> gc0]
 Obs == [gc |-> gc, act |-> active, ufl |-> ufl, fl |-> inflight, ins |-> ins, pos |-> pos,
-        fin |-> [t \in Threads |-> pc[t] = "Done"], crash |-> FALSE, dead |-> FALSE]
+        fin |-> [t \in Threads |-> pc[t] = "Done"], bgc |-> FALSE, crash |-> FALSE, dead |-> FALSE]
 
 \* INVARIANTS (abstract level, one per clause of the property + all of them)
 InvCountNonNeg == CountNonNeg(Cfg, Obs)
